@@ -231,6 +231,27 @@ class World(object):
         self.executor_server = executor_server.ExecutorServer(default_executor.DefaultExecutor(), setup_profiler=False)
         self.engine_client = rpc_clients.get_engine_client()
         self._listen_sql()
+        # exceptions that the post-commit queue and the schedulers catch and only log (the run goes on without them):
+        # they are part of what a step did
+        self.swallowed = []
+        import sys as _sys
+        self._log_patches = []
+        for modname in ('mistral.engine.post_tx_queue', 'mistral.scheduler.default_scheduler', 'mistral.services.legacy_scheduler'):
+            try:
+                mod = __import__(modname, fromlist=['LOG'])
+            except ImportError:
+                continue
+            lg = mod.LOG
+            orig = lg.exception
+
+            def swallow(msg, *a, **kw):
+                et = _sys.exc_info()[0]
+                world.swallowed.append(et.__name__ if et else 'unknown')
+            self._log_patches.append((lg, orig))
+            try:
+                lg.exception = swallow
+            except Exception:
+                pass
         if self.record_prims:
             from harness import primitives
             primitives.install(self)
@@ -247,6 +268,14 @@ class World(object):
         if self.record_prims:
             from harness import primitives
             primitives.uninstall()
+        for lg, orig in getattr(self, '_log_patches', []):
+            try:
+                del lg.exception
+            except Exception:
+                try:
+                    lg.exception = orig
+                except Exception:
+                    pass
         self.lib_utils.utc_now_sec = self._saved['now']
         self.lib_utils.generate_unicode_uuid = self._saved['uuid']
         rpc_base._IMPL_CLIENT = self._saved['impl']
@@ -482,6 +511,7 @@ class World(object):
         """Perform one step.  Returns an event dict (kind, args, exc)."""
         self.writes = []
         del self.prims[:]
+        del self.swallowed[:]
         kind = st[0]
         ev = {'kind': kind, 'exc': 'none'}
         try:
@@ -552,6 +582,7 @@ class World(object):
         finally:
             self.auth_context.set_ctx(None)
         ev['now'] = self.now
+        ev['swallowed'] = sorted(set(self.swallowed))
         ev['nwrites'] = len(self.writes)
         self.events.append(ev)
         return ev
